@@ -263,3 +263,39 @@ class MajorIndex:
         return c.sum_eq(result, c.wsum("Perm.major_index", 0, c.len(self) - 1, lambda i: c.ite(self[i] > self[i + 1], i + 1, 0)))
 
     modifies = ()
+
+
+# ------------------------------------------------ maximal_decreasing_run
+def _mdr_inv(c, st, k):
+    p = st.self
+    n = c.len(p)
+    nv, mni = st.next_val, st.max_not_included
+    return c.and_(
+        st.n == n, nv >= -1, nv <= n - 1,
+        # the values above next_val were met, in decreasing order, inside the prefix read so far
+        c.forall(nv + 1, n, lambda v: c.pos(p, v) < k),
+        c.forall(nv + 1, n - 1, lambda v: c.pos(p, v + 1) < c.pos(p, v)),
+        # next_val itself: not met yet, or met before its successor was
+        c.implies(c.and_(nv >= 0, c.pos(p, nv) < k), lambda: c.and_(nv < n - 1, lambda: c.pos(p, nv) < c.pos(p, nv + 1))),
+        # the largest skipped value is below next_val (so the early exit is never taken wrongly)
+        mni >= -1, mni <= nv, c.implies(mni >= 0, lambda: c.pos(p, mni) < k),
+    )
+
+
+@contract("Perm.maximal_decreasing_run", params={"self": "Perm"}, returns="int", props=P)
+class MaximalDecreasingRun:
+    # the largest k such that n-1, n-2, ..., n-k occur in this order (left to right) in the permutation
+    def requires(c, self):
+        return c.is_perm(self)
+
+    def ensures(c, self, result):
+        n = c.len(self)
+        k = result
+        return c.and_(
+            k >= 0, k <= n, c.implies(n >= 1, k >= 1),
+            c.forall(n - k, n - 1, lambda v: c.pos(self, v + 1) < c.pos(self, v)),
+            c.implies(c.and_(k >= 1, k < n), lambda: c.pos(self, n - 1 - k) < c.pos(self, n - k)),
+        )
+
+    invariants = {0: _mdr_inv}
+    modifies = ()
